@@ -83,6 +83,10 @@ func (rr *SIG) Verify(k *KEY, buf []byte) error {
 	if rr.KeyTag == 0 || rr.SignerName == "" || rr.Algorithm == 0 {
 		return ErrKey
 	}
+	if rr.Algorithm != k.Algorithm {
+		// A key of another algorithm is another key, also when the key material fits.
+		return ErrKey
+	}
 
 	h, cryptohash, err := hashFromAlgorithm(rr.Algorithm)
 	if err != nil {
